@@ -182,4 +182,203 @@ theorem numOK_exp (neg : Bool) (ds : List Nat) (pt : Int) (hne : ds ≠ []) (hd 
     rw [show ((0 + 1 : Nat) : Int) + (pt - 1) = pt by omega]
     rw [normDec_noop neg (a :: b :: r) pt (by simp) hh hl]
 
+/-! ### fixed notation -/
+
+theorem head_digitChars_ne45 (ds : List Nat) (hne : ds ≠ []) (rest : Str) :
+    ∃ c t, digitChars ds ++ rest = c :: t ∧ c ≠ 45 := by
+  cases ds with
+  | nil => exact absurd rfl hne
+  | cons a r => exact ⟨48 + a, digitChars r ++ rest, by simp [digitChars], by omega⟩
+
+theorem replicate_lt10 (n : Nat) : ∀ x ∈ List.replicate n 0, x < 10 := by
+  intro x hx
+  have := (List.mem_replicate.mp hx).2
+  omega
+
+theorem mem_append_lt10 {a b : List Nat} (ha : ∀ x ∈ a, x < 10) (hb : ∀ x ∈ b, x < 10) :
+    ∀ x ∈ a ++ b, x < 10 := by
+  intro x hx
+  rcases List.mem_append.mp hx with h | h
+  · exact ha x h
+  · exact hb x h
+
+/-- `0.000ddd` : `decpt ≤ 0` -/
+theorem numOK_fixed_small (neg : Bool) (ds : List Nat) (pt : Int) (hne : ds ≠ []) (hd : ∀ x ∈ ds, x < 10)
+    (hh : ds.head? ≠ some 0) (hl : ds.getLast? ≠ some 0) (hpt : pt ≤ 0) (rest : Str) (hr : numEnd rest) :
+    parseNum ((if neg then [45] else []) ++ reprFixedForm ds pt ++ rest) = some (.dbl ⟨neg, ds, pt⟩, rest) := by
+  have hrd := headNotDigit_of_numEnd rest hr
+  have hbody : reprFixedForm ds pt = 48 :: 46 :: digitChars (List.replicate (-pt).toNat 0 ++ ds) := by
+    simp [reprFixedForm, hpt, digitChars_append, digitChars_replicate]
+  have hfd : ∀ x ∈ List.replicate (-pt).toNat 0 ++ ds, x < 10 := mem_append_lt10 (replicate_lt10 _) hd
+  have hfne : List.replicate (-pt).toNat 0 ++ ds ≠ [] := by simp [hne]
+  have hfrac := parseFrac_digits _ hfne hfd rest hrd
+  have := parseNum_unsigned neg (reprFixedForm ds pt) rest [0]
+    (46 :: (digitChars (List.replicate (-pt).toNat 0 ++ ds) ++ rest))
+    (some (List.replicate (-pt).toNat 0 ++ ds)) rest none
+    ⟨48, _, hbody, by decide⟩
+    (by rw [hbody]; exact spanDigits_one 0 (by decide) 46 _ (by decide))
+    (by simp) (by simp) hfrac (parseExp_end rest hr) (by simp)
+  rw [this]
+  simp only [Option.getD_some, Option.getD_none, List.length_cons, List.length_nil]
+  unfold normDec
+  have hs : stripLeadingZeros ([0] ++ (List.replicate (-pt).toNat 0 ++ ds)) (((0 + 1 : Nat) : Int) + 0) = (ds, pt) := by
+    rw [show [0] ++ (List.replicate (-pt).toNat 0 ++ ds) = List.replicate ((-pt).toNat + 1) 0 ++ ds by
+      simp [List.replicate_succ]]
+    rw [stripLeading_replicate, stripLeading_noop ds _ hh]
+    congr 1
+    omega
+  rw [hs]
+  simp only [stripTrailing_noop ds hl, hne, if_false]
+
+/-- `ddd.ddd` : `0 < decpt < k` -/
+theorem numOK_fixed_mid (neg : Bool) (ds : List Nat) (pt : Int) (hd : ∀ x ∈ ds, x < 10)
+    (hh : ds.head? ≠ some 0) (hl : ds.getLast? ≠ some 0) (hpt : 0 < pt) (hk : pt < (ds.length : Int))
+    (rest : Str) (hr : numEnd rest) :
+    parseNum ((if neg then [45] else []) ++ reprFixedForm ds pt ++ rest) = some (.dbl ⟨neg, ds, pt⟩, rest) := by
+  have hrd := headNotDigit_of_numEnd rest hr
+  have hne : ds ≠ [] := by intro h; subst h; simp at hk; omega
+  have hbody : reprFixedForm ds pt = digitChars (ds.take pt.toNat) ++ 46 :: digitChars (ds.drop pt.toNat) := by
+    have : ¬ pt ≤ 0 := by omega
+    simp [reprFixedForm, this, hk]
+  have htk : ds.take pt.toNat ≠ [] := by
+    intro h
+    have := congrArg List.length h
+    rw [List.length_take, List.length_nil] at this
+    omega
+  have hdr : ds.drop pt.toNat ≠ [] := by
+    intro h
+    have := congrArg List.length h
+    rw [List.length_drop, List.length_nil] at this
+    omega
+  have htd : ∀ x ∈ ds.take pt.toNat, x < 10 := fun x hx => hd x (List.mem_of_mem_take hx)
+  have hdd : ∀ x ∈ ds.drop pt.toNat, x < 10 := fun x hx => hd x (List.mem_of_mem_drop hx)
+  have hfrac := parseFrac_digits _ hdr hdd rest hrd
+  have hhead : (ds.take pt.toNat).head? = ds.head? := by
+    cases ds with
+    | nil => exact absurd rfl hne
+    | cons a r =>
+      obtain ⟨n, hn⟩ : ∃ n, pt.toNat = n + 1 := ⟨pt.toNat - 1, by omega⟩
+      simp [hn]
+  obtain ⟨c, t, hct, hc⟩ := head_digitChars_ne45 (ds.take pt.toNat) htk (46 :: digitChars (ds.drop pt.toNat))
+  have := parseNum_unsigned neg (reprFixedForm ds pt) rest (ds.take pt.toNat)
+    (46 :: (digitChars (ds.drop pt.toNat) ++ rest)) (some (ds.drop pt.toNat)) rest none
+    ⟨c, t, by rw [hbody]; exact hct, hc⟩
+    (by rw [hbody]; simp only [List.append_assoc, List.cons_append]
+        exact spanDigits_digitChars _ htd _ (by show isDigit 46 = false; decide))
+    htk (by rw [hhead]; intro h; exact hh h.2) hfrac (parseExp_end rest hr) (by simp)
+  rw [this]
+  simp only [Option.getD_some, Option.getD_none, List.take_append_drop, List.length_take]
+  rw [show ((min pt.toNat ds.length : Nat) : Int) + 0 = pt by omega]
+  exact congrArg (fun x => some (JValue.dbl x, rest)) (normDec_noop neg ds pt hne hh hl)
+
+/-- `ddd000.0` : `decpt ≥ k`, also the zero `0.0` -/
+theorem numOK_fixed_big (neg : Bool) (ds : List Nat) (pt : Int) (hne : ds ≠ []) (hd : ∀ x ∈ ds, x < 10)
+    (hz : (ds = [0] ∧ pt = 1) ∨ (ds.head? ≠ some 0 ∧ ds.getLast? ≠ some 0)) (hk : (ds.length : Int) ≤ pt)
+    (rest : Str) (hr : numEnd rest) :
+    parseNum ((if neg then [45] else []) ++ reprFixedForm ds pt ++ rest) = some (.dbl ⟨neg, ds, pt⟩, rest) := by
+  have hrd := headNotDigit_of_numEnd rest hr
+  have hpos : 0 < pt := by
+    have : 0 < ds.length := List.length_pos_iff.mpr hne
+    omega
+  have hbody : reprFixedForm ds pt =
+      digitChars (ds ++ List.replicate (pt - (ds.length : Int)).toNat 0) ++ 46 :: digitChars [0] := by
+    have h1 : ¬ pt ≤ 0 := by omega
+    have h2 : ¬ pt < (ds.length : Int) := by omega
+    simp [reprFixedForm, h1, h2, digitChars_append, digitChars_replicate, digitChars]
+  have hid : ∀ x ∈ ds ++ List.replicate (pt - (ds.length : Int)).toNat 0, x < 10 :=
+    mem_append_lt10 hd (replicate_lt10 _)
+  have hine : ds ++ List.replicate (pt - (ds.length : Int)).toNat 0 ≠ [] := by simp [hne]
+  have hfrac := parseFrac_digits [0] (by simp) (by simp) rest hrd
+  obtain ⟨c, t, hct, hc⟩ := head_digitChars_ne45 _ hine (46 :: digitChars [0])
+  have hlz : ¬ (1 < (ds ++ List.replicate (pt - (ds.length : Int)).toNat 0).length ∧
+      (ds ++ List.replicate (pt - (ds.length : Int)).toNat 0).head? = some 0) := by
+    rcases hz with ⟨h1, h2⟩ | ⟨h1, _⟩
+    · subst h1; subst h2; simp
+    · intro ⟨_, h⟩
+      apply h1
+      cases ds with
+      | nil => exact absurd rfl hne
+      | cons a r => simpa using h
+  have := parseNum_unsigned neg (reprFixedForm ds pt) rest (ds ++ List.replicate (pt - (ds.length : Int)).toNat 0)
+    (46 :: (digitChars [0] ++ rest)) (some [0]) rest none
+    ⟨c, t, by rw [hbody]; exact hct, hc⟩
+    (by rw [hbody]; simp only [List.append_assoc, List.cons_append]
+        exact spanDigits_digitChars _ hid _ (by show isDigit 46 = false; decide))
+    hine hlz hfrac (parseExp_end rest hr) (by simp)
+  rw [this]
+  simp only [Option.getD_some, Option.getD_none, List.length_append, List.length_replicate]
+  rw [show ((ds.length + (pt - (ds.length : Int)).toNat : Nat) : Int) + 0 = pt by omega]
+  rcases hz with ⟨h1, h2⟩ | ⟨h1, h2⟩
+  · subst h1; subst h2
+    rfl
+  · unfold normDec
+    rw [stripLeading_noop _ pt (by
+      cases ds with
+      | nil => exact absurd rfl hne
+      | cons a r => simpa using h1)]
+    have : stripTrailingZeros (ds ++ List.replicate (pt - ↑ds.length).toNat 0 ++ [0]) = ds := by
+      rw [show ds ++ List.replicate (pt - ↑ds.length).toNat 0 ++ [0] =
+          ds ++ List.replicate ((pt - ↑ds.length).toNat + 1) 0 by
+        rw [List.append_assoc]; congr 1; simp [List.replicate_succ']]
+      rw [stripTrailing_replicate, stripTrailing_noop ds h2]
+    simp only [this, hne, if_false]
+
+theorem numStart_head (l : Str) (c : Nat) (h : l.head? = some c) (hc : numStart c) :
+    ∃ c t, l = c :: t ∧ numStart c := by
+  cases l with
+  | nil => simp at h
+  | cons x t => simp at h; subst h; exact ⟨x, t, rfl, hc⟩
+
+/-- `float.__repr__` of a decimal in normal form is read back exactly (both notations) -/
+theorem numOK_reprDouble (d : Dec) (h : wfDec d = true) : NumOK (reprDouble d) (.dbl d) := by
+  obtain ⟨neg, ds, pt⟩ := d
+  simp only [wfDec, Bool.and_eq_true, Bool.not_eq_true', List.isEmpty_eq_false_iff, List.all_eq_true,
+    decide_eq_true_eq, Bool.or_eq_true, beq_iff_eq, bne_iff_ne, ne_eq] at h
+  obtain ⟨⟨hne, hd⟩, hz⟩ := h
+  have hz' : (ds = [0] ∧ pt = 1) ∨ (ds.head? ≠ some 0 ∧ ds.getLast? ≠ some 0) := hz
+  constructor
+  · -- first character
+    unfold reprDouble
+    cases neg
+    · simp only [Bool.false_eq_true, if_false, List.nil_append, reprBody]
+      obtain ⟨a, r, har⟩ : ∃ a r, ds = a :: r := by
+        cases ds with
+        | nil => exact absurd rfl hne
+        | cons a r => exact ⟨a, r, rfl⟩
+      have ha : a < 10 := hd a (by simp [har])
+      have hdig : ∀ x, x < 10 → numStart (48 + x) := fun x hx => Or.inr (by simp [isDigit]; omega)
+      split
+      · cases r with
+        | nil => exact numStart_head _ (48 + a) (by simp [har, reprExpForm, reprMantissa]) (hdig a ha)
+        | cons b r' => exact numStart_head _ (48 + a) (by simp [har, reprExpForm, reprMantissa]) (hdig a ha)
+      · unfold reprFixedForm
+        split
+        · exact numStart_head _ 48 (by simp) (Or.inr (by decide))
+        · split
+          · rename_i h1 h2
+            obtain ⟨n, hn⟩ : ∃ n, pt.toNat = n + 1 := ⟨pt.toNat - 1, by omega⟩
+            exact numStart_head _ (48 + a) (by simp [har, hn, digitChars]) (hdig a ha)
+          · exact numStart_head _ (48 + a) (by simp [har, digitChars]) (hdig a ha)
+    · exact numStart_head _ 45 (by simp) (Or.inl rfl)
+  · intro rest hr
+    have e : reprDouble ⟨neg, ds, pt⟩ ++ rest = (if neg then [45] else []) ++ reprBody ⟨neg, ds, pt⟩ ++ rest := by
+      simp [reprDouble]
+    rw [e]
+    unfold reprBody
+    simp only
+    split
+    · rename_i hform
+      rcases hz' with ⟨_, h2⟩ | ⟨h1, h2⟩
+      · omega
+      · exact numOK_exp neg ds pt hne hd h1 h2 rest hr
+    · rename_i hform
+      by_cases hk : (ds.length : Int) ≤ pt
+      · exact numOK_fixed_big neg ds pt hne hd hz' hk rest hr
+      · have hlen : 0 < ds.length := List.length_pos_iff.mpr hne
+        rcases hz' with ⟨h1, h2⟩ | ⟨h1, h2⟩
+        · subst h1; simp at hk; omega
+        · by_cases hp : pt ≤ 0
+          · exact numOK_fixed_small neg ds pt hne hd h1 h2 hp rest hr
+          · exact numOK_fixed_mid neg ds pt hd h1 h2 (by omega) (by omega) rest hr
+
 end EPV.Json
